@@ -4,6 +4,8 @@
 mod verif_geom;
 #[path = "rules.rs"]
 mod verif_rules;
+#[path = "fen.rs"]
+mod verif_fen;
 use verif_geom::*;
 use verif_rules::*;
 
@@ -45,7 +47,16 @@ pub fn moves(p: &P) -> Vec<Mv> {
     }
     out
 }
+fn check_query_forms(p: &P) {
+    let (c, pi) = (checkers_spec(p), pinned_spec(p));
+    for q in 0..64u8 {
+        assert_eq!(has(c, q), is_checker(p, q), "is_checker {q} {p:?}");
+        assert_eq!(has(pi, q), is_pinned(p, q), "is_pinned {q} {p:?}");
+    }
+    assert_eq!(c != 0, in_check_spec(p));
+}
 fn perft(p: &P, depth: u32) -> u64 {
+    check_query_forms(p);
     let ms = moves(p);
     if depth == 1 { return ms.len() as u64; }
     ms.iter().map(|&m| perft(&apply(p, m), depth - 1)).sum()
@@ -89,6 +100,18 @@ fn main() {
     assert_eq!(pawn_push(8, 0, 0), (1 << 16) | (1 << 24));
     assert_eq!(pawn_push(8, 0, 1 << 24), 1 << 16);
     assert_eq!(pawn_push(8, 0, 1 << 16), 0);
+    // canonical FEN writer against the strings the positions were parsed from
+    for fen in ["rnbqkbnr/pppppppp/8/8/8/8/PPPPPPPP/RNBQKBNR w KQkq - 0 1", "r3k2r/p1ppqpb1/bn2pnp1/3PN3/1p2P3/2N2Q1p/PPPBBPPP/R3K2R w KQkq - 0 1", "8/2p5/3p4/KP5r/1R3p1k/8/4P1P1/8 w - - 0 1", "n1n5/PPPk4/8/8/8/8/4Kppp/5N1N b - - 0 1"] {
+        let p = parse(fen);
+        let mut o = verif_fen::Out::new();
+        verif_fen::fen_spec(&p, &mut o);
+        assert_eq!(std::str::from_utf8(&o.b[..o.n]).unwrap(), fen);
+    }
+    let mut p = parse("4k3/8/8/3pP3/8/8/8/4K3 w - d6 0 1");
+    p.half = 9999; p.full = 65535; p.rights = 0;
+    let mut o = verif_fen::Out::new();
+    verif_fen::fen_spec(&p, &mut o);
+    assert_eq!(std::str::from_utf8(&o.b[..o.n]).unwrap(), "4k3/8/8/3pP3/8/8/8/4K3 w - d6 9999 65535");
     if !ok { std::process::exit(1); }
     println!("spec self-check ok");
 }
